@@ -24,6 +24,21 @@
 
 #include <iostream>
 
+#ifdef PHOTOSPLINE_VERIF
+//Verification hooks (off unless PHOTOSPLINE_VERIF is defined): the harness
+//supplies these functions and uses them to observe which evaluation core
+//ran and to bound the number of binary search steps in searchcenters.
+extern "C" void photospline_verif_core(const char* function);
+extern "C" void photospline_verif_search_overrun(void);
+#define PHOTOSPLINE_VERIF_CORE() photospline_verif_core(__PRETTY_FUNCTION__)
+#define PHOTOSPLINE_VERIF_SEARCH_DECL() unsigned int photospline_verif_steps=0
+#define PHOTOSPLINE_VERIF_SEARCH_STEP() do{ if(++photospline_verif_steps>64) photospline_verif_search_overrun(); }while(0)
+#else
+#define PHOTOSPLINE_VERIF_CORE() ((void)0)
+#define PHOTOSPLINE_VERIF_SEARCH_DECL() ((void)0)
+#define PHOTOSPLINE_VERIF_SEARCH_STEP() ((void)0)
+#endif
+
 namespace photospline{
 	
 #ifdef PHOTOSPLINE_INCLUDES_SPGLAM
